@@ -8,7 +8,7 @@ SPEC = {
                   "exceptions, which the oracle decides from the pre-state (stored inviter/delegatee, contract code).",
     "level_note": "twins are not formed on validation-finished blocks; a contract draining an uninvolved other contract is outside what the oracle sees",
     "rule": "case = one twin pair whose tx was included; distinct_nontrivial = distinct (tx type, target relation, sender status) triples",
-    "jobs": [Job("chain", "verifsim", "^TestVerifC05$", shards=(8, 16), timeout=(900, 3600))],
+    "jobs": [Job("chain", "verifsim", "^TestVerifC05$", shards=(8, 16), timeout=(900, 7200))],
     "floors": {"twin_triples_failed_midway_then_succeeded": 200, "twin_sequences_failed_midway_then_succeeded": 200, "relation:own-invitee": 3, "relation:own-delegator": 2, "relation:contract": 10, "relation:god": 10, "relation:undefined": 20,
                "relation:self": 2, "relation:identity": 20, "twin_type:KillInvitee": 2, "twin_type:KillDelegator": 2, "twin_type:Call": 5, "attempted_relation:pending-delegator-of-signer": 30, "attempted_relation:foreign-delegator": 5, "attempted_relation:foreign-invitee": 5,
                "attempted:forged:signature-bytes-copied-from-a-tx-of-the-victim": 400, "attempted:forged:unrecoverable-signature-spends-the-zero-wallet": 800,
